@@ -229,7 +229,7 @@ func init() {
 		ID: "C10", Level: "fault_enumeration",
 		Rule: "for ~6 blocks of each generated history (always including a payout block, a period-start block and blocks with events/pruning/validator updates) the sequence of DB writes of Commit is first recorded with a counting wrapper around the state, events and app stores, then for EVERY prefix length k the block is re-executed on a copy of the pre-block data, the process 'dies' (panic) before write k+1, a new instance starts on the surviving data and the driver does what Tendermint's handshake does (Info; height=h needs the right hash, height=h-1 gets block h replayed) and then 4 further blocks; responses, app hashes, Info/emission/versions/validators/price/events and the from-disk export must equal the uncrashed instance; one evaluation = one (block, write index) crash-recover-compare; distinct = crash positions (store:key-class before/after)",
 		Assumptions: []string{"process-crash model: completed writes survive, no torn single write; a DB batch is atomic (true for goleveldb and the memdb used here)", "Tendermint replays block h when the app reports h-1 and nothing when it reports h (0.34 handshake)"},
-		Quick: 28, Thorough: 700, MinEval: 800, MinDistinct: 4,
+		Quick: 28, Thorough: 280, MinEval: 800, MinDistinct: 4,
 		Run: func(ctx *WorkCtx, idx int) {
 			r := Rng(ctx.Seed, "C10", idx)
 			sc := StdScenario(idx, r, 70)
